@@ -80,6 +80,17 @@ impl Store {
         v.truncate(got);
         v
     }
+    /// content hash of the whole (possibly huge, sparse) image
+    pub fn digest(&self) -> u64 {
+        let mut h = crate::rng::fnv_add(0xcbf29ce484222325, self.len);
+        for (k, pg) in self.pages.iter() {
+            if pg.iter().any(|b| *b != 0) {
+                h = crate::rng::fnv_add(h, *k);
+                h = crate::rng::mix(h, crate::rng::fnv(pg));
+            }
+        }
+        h
+    }
     pub fn truncate(&mut self, len: u64) {
         if len < self.len {
             // zero the tail of the boundary page, drop later pages
